@@ -343,6 +343,8 @@ class AsyncStubSim(StubSim):
         for j, call in enumerate(beh.get("async_calls", ())):
             if h01(b, "ac", j) >= call.get("p", 1.0):
                 continue
+            if time < call.get("from_time", 0):
+                continue
             kind = call["kind"]
             if kind == "set_data":
                 val = f"{self.sid}:sd{j}@{time}#{self.k}"
